@@ -38,6 +38,13 @@ func c02Kind(kind int, tier int) {
 	if g.emptyName {
 		tag = "[empty-quoted-name]"
 	}
+	if cd, ok := s1.(*CreateDatabaseStatement); ok && cd.RetentionPolicyCreate && cd.RetentionPolicyDuration == nil &&
+		cd.RetentionPolicyReplication == nil && cd.FutureWriteLimit == nil && cd.PastWriteLimit == nil && cd.RetentionPolicyName == "" {
+		// WITH SHARD DURATION as the only option: a zero duration cannot be told from an absent one in the AST
+		if cd.RetentionPolicyShardGroupDuration == 0 {
+			tag = "[create-database-with-only-a-zero-shard-duration]"
+		}
+	}
 	printed := s1.String()
 	vfNote(printed)
 	q2, err := ParseQuery(printed)
